@@ -19,7 +19,8 @@ OPTION_SETS = [[], [], ["score=automatic"], ["score=automatic"], ["bmax=5"], ["i
                ["quiet=TRUE"], ["quiet=ALL", "imax=10"], ["quiet=WATCH", "bmax=3"], ["spurious_range=3", "imax=30"], ["spurious_equality=0", "bmax=4"],
                ["score=automatic", "temperature=25", "W_bonds=2.5", "bmult=1"], ["bored=2"], ["OUTPUT"], ["SEQUENCE", "imax=20"],
                ["SEQUENCE", "trace=ON", "imax=30"], ["SEQUENCE", "imax=1"], ["SEQUENCE", "trace=ON", "score=automatic", "bmult=1"], ["SEQUENCE", "trace=ON", "bmax=6"],
-               ["score=automatic", "bmax=0"], ["bored=0", "score=automatic"], ["bmax=0"], ["quiet=SCORES"], ["quiet=SCORES", "score=automatic", "bmult=1"]]
+               ["score=automatic", "bmax=0"], ["bored=0", "score=automatic"], ["bmax=0"], ["quiet=SCORES"], ["quiet=SCORES", "score=automatic", "bmult=1"],
+               ["bmult=0"], ["score=automatic", "bmult=0"], ["score=verboten", "bmult=0"]]
 
 def hand_triples(rng):
     out = []
@@ -39,6 +40,17 @@ def hand_triples(rng):
         out.append((st, [-1] * n, [0 if c == " " else i + 1 for i, c in enumerate(st)]))
     # fully fixed
     st = "".join(rng.choice("ACGT") for _ in range(25)); out.append((st, [-1] * 25, list(range(1, 26))))
+    # a design of more than 1024 positions (input buffers, index arithmetic): 27 duplexes of 2 x 22 plus blanks
+    st = ""; wc = []; eq = []
+    for k in range(27):
+        a0 = len(st)
+        st += "N" * 22 + " " + "N" * 22 + "  "
+        for i in range(22): wc.append(a0 + 23 + 22 - i)
+        wc.append(-1)
+        for i in range(22): wc.append(a0 + 22 - i)
+        wc += [-1, -1]
+        eq += [a0 + i + 1 for i in range(22)] + [0] + [a0 + 23 + i + 1 for i in range(22)] + [0, 0]
+    out.append((st[:-2], wc[:-2], eq[:-2]))      # as the front-end writes them: no blanks after the last nucleotide
     return out
 
 def impl_case(case):
@@ -103,7 +115,7 @@ def run(tier, seed, build):
     cases = []
     for ti, (st, wc, eq) in enumerate(triples):
         k = 2 if tier == "quick" else 4
-        for opts in ([[], ["score=automatic"]] if ti < 20 else []) + [rng.choice(OPTION_SETS) for _ in range(k)]:
+        for opts in ([["imax=5"], ["score=automatic", "imax=3"]] if len(st) > 1024 else ([[], ["score=automatic"]] if ti < 20 else []) + [rng.choice(OPTION_SETS) for _ in range(k)]):
             if len(st) > 150 and not any(o.startswith(("imax", "tmax", "bmax", "bored")) for o in opts) and tier == "quick" and rng.random() < 0.5:
                 opts = opts + ["bmult=1"]
             cases.append({"st": st, "wc": wc, "eq": eq, "opts": opts, "binary": binary, "dir": os.path.join(wd, "r%d" % len(cases)), "seed": rng.randrange(10**6)})
@@ -178,7 +190,7 @@ def run(tier, seed, build):
             failures.append({"kind": "predicate", "key": "invalid-sequence", "summary": "a printed sequence violates template / eq / wc: %r" % invalid[ci], "replay": rep}); continue
         if any(x != -1 for x in c["wc"]) or n >= 100: nontrivial.add((c["st"], tuple(c["opts"])))
     return {"evaluations": len(cases), "distinct_nontrivial": len(nontrivial),
-            "rule": "consistent triples: the designer model's files for generated PIL documents in both layouts, plus hand-built ones (length 1 and 2, blanks, hairpins, unconstrained designs of 97-282 positions, fully fixed) x option sets (none, score=automatic, bmax, imax, tmax, score modes and weights, trace=ON, quiet modes, output=, sequence=, spurious_range/equality, temperature); ASan+UBSan binary under a time-out; exit status, output shape, every traced and final sequence through the extracted validity predicate; the model's constrain compared exactly with the binary's 'constrained S' for start sequences given by file (within the templates, not obeying eq/wc), every consecutive pair of traced sequences must be one model mutation of a free location; triple_ok evaluated on every triple. Non-trivial = has pairs or at least 100 positions",
+            "rule": "consistent triples: the designer model's files for generated PIL documents in both layouts, plus hand-built ones (length 1 and 2, blanks, hairpins, unconstrained designs of 97-282 positions, fully fixed, one design of 1267 positions) x option sets (none, score=automatic, bmax, imax, tmax, score modes and weights, bmult incl. 0, trace=ON, quiet modes, output=, sequence=, spurious_range/equality, temperature); ASan+UBSan binary under a time-out; exit status, output shape, every traced and final sequence through the extracted validity predicate; the model's constrain compared exactly with the binary's 'constrained S' for start sequences given by file (within the templates, not obeying eq/wc), every consecutive pair of traced sequences must be one model mutation of a free location; triple_ok evaluated on every triple. Non-trivial = has pairs or at least 100 positions",
             "samples": [{"template": c["st"], "options": c["opts"]} for c in cases[:5]], "distribution": dist, "failures": failures}
 
 def replay(path):
